@@ -41,7 +41,7 @@ pub fn run(cfg: &RunCfg) -> Ctx {
     all.merge(par_cases(&c, "race2", cfg.n(120, 3000), || (), |_, rng, ctx, _| race2_case(rng, ctx)));
     all.floor("race2.histories", 40);
     all.floor("race2.with_clear", 10);
-    for k in ["seq.check_found", "seq.check_not_found", "seq.watch_not_found", "seq.watch_items", "seq.stream_ended_by_clear", "seq.coalesced_updates", "seq.redundant_set_then_change", "seq.set_then_clear_unpolled", "conc.histories_linearizable", "conc.watch_items"] {
+    for k in ["seq.check_found", "seq.check_not_found", "seq.watch_not_found", "seq.watch_items", "seq.stream_ended_by_clear", "seq.several_updates_after_subscription", "seq.redundant_set_then_change", "seq.set_then_clear_unpolled", "conc.histories_linearizable", "conc.watch_items"] {
         all.floor(k, 5);
     }
     all
@@ -226,7 +226,11 @@ fn sequential(rng: &mut Rng, ctx: &mut Ctx) {
             ctx.count("seq.stream_ended_by_clear");
         }
         if w.reported.len() < g.values.len() - w.sub_at {
-            ctx.count("seq.coalesced_updates");
+            // observed, not required: an implementation may report every intermediate status
+            ctx.count("observed.coalesced_updates");
+        }
+        if g.values.len() - w.sub_at >= 3 {
+            ctx.count("seq.several_updates_after_subscription");
         }
         ctx.add("seq.watch_items", w.reported.len() as u64);
     }
